@@ -120,6 +120,14 @@ func init() {
 		}
 		return m.tt.Const(uint64(def), 64)
 	}
+	Z["IteU64"] = func(m *Machine, fn *ssa.Function, a []Value) Value {
+		return m.tt.Ite(a[1].(*Term), a[2].(*Term), a[3].(*Term))
+	}
+	Z["IteU32"] = Z["IteU64"]
+	Z["IteInt"] = Z["IteU64"]
+	Z["And"] = func(m *Machine, fn *ssa.Function, a []Value) Value { return m.tt.And(a[1].(*Term), a[2].(*Term)) }
+	Z["Or"] = func(m *Machine, fn *ssa.Function, a []Value) Value { return m.tt.Or(a[1].(*Term), a[2].(*Term)) }
+	Z["Implies"] = func(m *Machine, fn *ssa.Function, a []Value) Value { return m.tt.Implies(a[1].(*Term), a[2].(*Term)) }
 	// monitor side table: symbolic-only key/value store for paired stubs
 	Z["SideSet"] = func(m *Machine, fn *ssa.Function, a []Value) Value {
 		m.path.side[concStr(m, a[1])] = a[2]
